@@ -208,6 +208,23 @@ class EngineP(EngineBase):
         multiprocessing.pool.Pool = simpool.SimPool
         saved.append((lark, "Lark", lark.Lark))
         lark.Lark = FaultyLark
+        # concurrent.futures route: same scheduler
+        import concurrent.futures as cf
+        import concurrent.futures.process as cfp
+        for mod, attr, repl in ((cf, "ProcessPoolExecutor", simpool.SimExecutor), (cfp, "ProcessPoolExecutor", simpool.SimExecutor),
+                                (cf, "as_completed", simpool.sim_as_completed), (cf, "wait", simpool.sim_wait)):
+            saved.append((mod, attr, getattr(mod, attr)))
+            setattr(mod, attr, repl)
+        for k, v in list(vars(P).items()):
+            if v is saved[-4][2]:
+                saved.append((P, k, v))
+                setattr(P, k, simpool.SimExecutor)
+            elif v is simpool._REAL_AS_COMPLETED:
+                saved.append((P, k, v))
+                setattr(P, k, simpool.sim_as_completed)
+            elif v is simpool._REAL_WAIT:
+                saved.append((P, k, v))
+                setattr(P, k, simpool.sim_wait)
         return saved
 
     @staticmethod
